@@ -870,8 +870,34 @@ package machine
 //@   ensures kind: mut != nil ==> fresh(mut) && mut.IsAuto && mut.Type == MutationAdd && !mut.IsCheck && mut.QueueTick == 0
 //@   ensures called: mut != nil ==> (forall i int :: 0 <= i && i < len(mut.Called) ==> 0 <= mut.Called[i] && mut.Called[i] < len(machOf(rr).stateNames))
 
+// State contexts: a context is registered per state and handed out again until
+// the state's tick changes; the executor passes every ticked state (ctx_complete),
+// and ProcessStateCtx drops exactly those registrations (their cancel functions
+// are returned to be called).
 //@ func (sm *Subscriptions) ProcessStateCtx(activated, deactivated S) (r []context.CancelFunc)
-//@   trusted specified with C06; here only its frame matters (subscription indexes)
+//@   props C06 C12
+//@   requires inv:   !isnil(sm.stateCtx) && unlocked(sm.Mx) && (forall s string :: has(sm.stateCtx, s) ==> sm.stateCtx[s] != nil)
+//@   assigns  sm.stateCtx, sm.Mx
+//@   ensures  dropped: forall s string :: mem(activated, s) || mem(deactivated, s) ==> !has(sm.stateCtx, s)
+//@   ensures  kept:    forall s string :: !mem(activated, s) && !mem(deactivated, s) ==> (has(sm.stateCtx, s) <==> old(has(sm.stateCtx, s))) && sm.stateCtx[s] == old(sm.stateCtx[s])
+//@   ensures  count:   len(r) <= len(activated) + len(deactivated)
+//@   ensures  locks:   unlocked(sm.Mx)
+//@   loop 1 invariant inv: !isnil(sm.stateCtx) && (forall s string :: has(sm.stateCtx, s) ==> sm.stateCtx[s] != nil) && len(toCancel) <= idx1
+//@   loop 1 invariant dropped: forall j int :: 0 <= j && j < idx1 ==> !has(sm.stateCtx, activated[j])
+//@   loop 1 invariant kept: forall s string :: !(exists j int :: 0 <= j && j < idx1 && activated[j] == s) ==> (has(sm.stateCtx, s) <==> old(has(sm.stateCtx, s))) && sm.stateCtx[s] == old(sm.stateCtx[s])
+//@   loop 2 invariant inv: !isnil(sm.stateCtx) && (forall s string :: has(sm.stateCtx, s) ==> sm.stateCtx[s] != nil) && len(toCancel) <= len(activated) + idx2
+//@   loop 2 invariant dropped: (forall j int :: 0 <= j && j < len(activated) ==> !has(sm.stateCtx, activated[j])) && (forall j int :: 0 <= j && j < idx2 ==> !has(sm.stateCtx, deactivated[j]))
+//@   loop 2 invariant kept: forall s string :: !mem(activated, s) && !(exists j int :: 0 <= j && j < idx2 && deactivated[j] == s) ==> (has(sm.stateCtx, s) <==> old(has(sm.stateCtx, s))) && sm.stateCtx[s] == old(sm.stateCtx[s])
+
+//@ func (sm *Subscriptions) NewStateCtx(state string) (r context.Context)
+//@   props C06 C12
+//@   abstracts the context package and the machine (Api.Id, Api.Context) are opaque
+//@   requires inv:   !isnil(sm.stateCtx) && unlocked(sm.Mx) && sm.mach != nil && (forall s string :: has(sm.stateCtx, s) ==> sm.stateCtx[s] != nil)
+//@   assigns  sm.stateCtx, sm.Mx
+//@   ensures  registered: has(sm.stateCtx, state) && sm.stateCtx[state] != nil && sm.stateCtx[state].Ctx == r
+//@   ensures  reused:  old(has(sm.stateCtx, state)) ==> sm.stateCtx[state] == old(sm.stateCtx[state])
+//@   ensures  others:  forall s string :: s != state ==> (has(sm.stateCtx, s) <==> old(has(sm.stateCtx, s))) && sm.stateCtx[s] == old(sm.stateCtx[s])
+//@   ensures  locks:   unlocked(sm.Mx)
 //@ func (sm *Subscriptions) HasWhenArgs() (r bool)
 //@   trusted reads the subscription index
 // Recovery after a fault in the final phase: with k final handlers completed
@@ -1017,6 +1043,7 @@ package machine
 //@   requires start: ghost.phase == 0 && ghost.tStart == 0 && ghost.tFinals == 0 && ghost.tEnd == 0 && ghost.faults == 0 && ghost.finalsDone == 0
 //@   requires tracers: forall i int :: 0 <= i && i < len(t.Machine.tracers) ==> t.Machine.tracers[i] != nil
 //@   requires named: forall s string :: mem(t.Machine.stateNames, s) ==> s != ""
+//@   requires subs:  !isnil(t.Machine.subs.stateCtx) && unlocked(t.Machine.subs.Mx) && (forall s string :: has(t.Machine.subs.stateCtx, s) ==> t.Machine.subs.stateCtx[s] != nil)
 //@   assigns  *
 //@   ensures  res:           res == Executed || res == Canceled
 //@   ensures  frame:         ghost.applied == old(ghost.applied) ==> mapeq(t.Machine.clock, old(t.Machine.clock)) && seqeq(t.Machine.activeStates, old(t.Machine.activeStates))
@@ -1374,3 +1401,20 @@ package machine
 //@   ensures all:   forall i int :: 0 <= i && i < len(t) && t[i] != 0 ==> mem(ret, i)
 //@   loop 1 invariant range: forall k int :: 0 <= k && k < len(ret) ==> 0 <= ret[k] && ret[k] < idx1 && t[ret[k]] != 0
 //@   loop 1 invariant all:   forall i int :: 0 <= i && i < idx1 && t[i] != 0 ==> mem(ret, i)
+
+// ---- C05 / C12 / C20: the handler bindings list ----
+// Readers iterate a private snapshot: binding or detaching handlers while a
+// transition runs must not change (or race with) the list being dispatched.
+//@ func (m *Machine) getHandlers(locked bool) (ret []*handler)
+//@   props C05 C12 C20
+//@   requires locks: locked ? locked(m.handlersMx) : unlocked(m.handlersMx)
+//@   assigns  m.handlersMx
+//@   ensures  copy:  fresh(ret) && seqeq(ret, m.handlers)
+//@   ensures  locks: m.handlersMx == old(m.handlersMx)
+
+//@ func (m *Machine) setHandlers(locked bool, handlers []*handler)
+//@   props C12
+//@   requires locks: locked ? locked(m.handlersMx) : unlocked(m.handlersMx)
+//@   assigns  m.handlers, m.handlersMx
+//@   ensures  set:   m.handlers == handlers
+//@   ensures  locks: m.handlersMx == old(m.handlersMx)
